@@ -40,13 +40,15 @@ type responder struct {
 	policy map[string]string // "open": accept refuse silent; "data": ack silent; "close": ack silent; "join"/"leave": confirm error silent
 	sid    string            // sid of the library-opened stream (from its <open/>)
 	lastID map[string]string // id of the library's last join / leave presence
+	hook   func()            // called between the two pieces of a split reply
+	split  chan struct{}     // receives once both pieces of a split reply have been fed
 	trace  []string
 	stop   chan struct{}
 	done   chan struct{}
 }
 
 func newResponder(sv *wire.Served, ns string) *responder {
-	r := &responder{sv: sv, ns: ns, policy: map[string]string{}, lastID: map[string]string{}, stop: make(chan struct{}), done: make(chan struct{})}
+	r := &responder{sv: sv, ns: ns, policy: map[string]string{}, lastID: map[string]string{}, split: make(chan struct{}, 8), stop: make(chan struct{}), done: make(chan struct{})}
 	go r.loop()
 	return r
 }
@@ -149,6 +151,21 @@ func (r *responder) react(e *xt.Node) {
 		case "silent":
 		case "error":
 			r.sv.Feed(`<presence xmlns="` + r.ns + `" type="error" id="` + id + `" from="` + to + `"><x xmlns="http://jabber.org/protocol/muc"/><error type="auth"><forbidden xmlns="urn:ietf:params:xml:ns:xmpp-stanzas"/></error></presence>`)
+		case "error-split":
+			// the refusal arrives in two pieces and the caller's context ends in
+			// between (after the reply has been matched to the waiting call)
+			r.sv.Feed(`<presence xmlns="` + r.ns + `" type="error" id="` + id + `" from="` + to + `"><x xmlns="http://jabber.org/protocol/muc"/>`)
+			r.sv.Conn.WaitDrainedOr(r.sv.Done(), time.Second)
+			time.Sleep(time.Millisecond)
+			r.mu.Lock()
+			hk := r.hook
+			r.mu.Unlock()
+			if hk != nil {
+				hk()
+			}
+			time.Sleep(2 * time.Millisecond)
+			r.sv.Feed(`<error type="auth"><forbidden xmlns="urn:ietf:params:xml:ns:xmpp-stanzas"/></error></presence>`)
+			r.split <- struct{}{}
 		default:
 			t := ""
 			if what == "leave" {
@@ -206,7 +223,7 @@ func genHelpers(t *rapid.T) hcase {
 	}
 	for i := 0; i < n; i++ {
 		st := hstep{op: rapid.SampledFrom([]string{"join", "join", "leave", "rejoin"}).Draw(t, "op")}
-		st.pol = rapid.SampledFrom([]string{"confirm", "confirm", "confirm", "error", "silent"}).Draw(t, "pol")
+		st.pol = rapid.SampledFrom([]string{"confirm", "confirm", "confirm", "error", "silent", "error-split"}).Draw(t, "pol")
 		st.flag = rapid.Bool().Draw(t, "flag")
 		// n: what the room sends after the call has returned, while the call's
 		// context is still alive (flag): 0 nothing, 1 a late error reply with the
@@ -274,6 +291,9 @@ func checkHelpers(t interface {
 		}
 		if b := wire.BlockedMatching("handleInputStream"); len(b) > 0 {
 			fail("%s; the serve loop is parked inside the library:\n%s", what, strings.Join(b, "\n\n"))
+		}
+		if wire.ServeIdle() && sv.Conn.PendingInput() == 0 {
+			fail("%s; the serve loop has consumed all the input and is waiting for more: what was fed was swallowed", what)
 		}
 		ev.Class("inconclusive-timeout")
 		ev.Note("inconclusive (no goroutine parked inside the library): %s\n%s\nwhat happened:\n  %s\npeer:\n  %s", what, c.String(), strings.Join(log, "\n  "), rsp.history())
@@ -508,10 +528,15 @@ func checkHelpers(t interface {
 			if st.pol == "silent" {
 				time.AfterFunc(5*time.Millisecond, cancel)
 			}
+			rsp.mu.Lock()
+			rsp.hook = cancel
+			rsp.mu.Unlock()
+			called := false
 			switch st.op {
 			case "join", "rejoin":
 				rsp.set("join", st.pol)
 				if ch == nil || st.op == "join" && !ch.Joined() {
+					called = true
 					if _, ok := call(what, func() string {
 						c2, err := mc.Join(ctx, room, sv.Session)
 						if c2 != nil {
@@ -523,6 +548,7 @@ func checkHelpers(t interface {
 						return
 					}
 				} else if st.op == "rejoin" {
+					called = true
 					if _, ok := call(what, func() string { return fmt.Sprint("err=", ch.Join(ctx)) }); !ok {
 						cancel()
 						return
@@ -534,7 +560,18 @@ func checkHelpers(t interface {
 					continue
 				}
 				rsp.set("leave", st.pol)
+				called = true
 				if _, ok := call(what, func() string { return fmt.Sprint("err=", ch.Leave(ctx, "bye")) }); !ok {
+					cancel()
+					return
+				}
+			}
+			if st.pol == "error-split" && called {
+				// nothing else may be fed before the second piece of the reply is in
+				select {
+				case <-rsp.split:
+				case <-time.After(waitLong):
+					ev.Class("inconclusive-timeout")
 					cancel()
 					return
 				}
